@@ -1,7 +1,49 @@
-"""C05 - File-level obligations (see checks/file_common.py and DESIGN.md section 6)."""
-import sys, os
+"""C05 - file header statistics are exact and agree with the reader's running counters.
+
+ * accumulator clauses on the four transfer functions, open and close (checks/file_common.py);
+ * the reader-side agreement on the 170 Vector-written reference logs is a FACT ABOUT THE FIXTURES, not a contract: it is
+   observed natively on the real library built from the working tree (harness/native/reader_counters.cpp) and
+   reported separately in the evidence (coverage.native_reference_logs); a disagreement names the file.
+"""
+import sys, os, subprocess, glob, hashlib
 sys.path.insert(0, os.path.dirname(os.path.dirname(os.path.abspath(__file__))))
-from run import core
+from run import core, classinfo
 from checks import file_common
+
+
+def native_counters(rep):
+    from harness import replay_gen
+    try:
+        d = replay_gen.ensure_native()
+    except core.Inconclusive as e:
+        rep.inconclusive.append(str(e)); return
+    nd = os.path.join(core.BUILD, 'nativebin'); os.makedirs(nd, exist_ok=True)
+    src = os.path.join(core.VERIF, 'harness', 'native', 'reader_counters.cpp'); exe = os.path.join(nd, 'reader_counters')
+    lib = os.path.join(d, 'src', 'Vector', 'BLF')
+    p = subprocess.run(['g++', '-std=c++11', '-g', '-fsanitize=address,undefined', '-I', os.path.join(core.REPO, 'src'), '-I', os.path.join(d, 'src'),
+                        src, '-o', exe, '-L', lib, '-lVector_BLF', '-Wl,-rpath,' + lib, '-lpthread'], stdout=subprocess.PIPE, stderr=subprocess.STDOUT, text=True)
+    if p.returncode != 0:
+        rep.inconclusive.append('native reader-counter probe does not compile: ' + p.stdout[-300:]); return
+    files = sorted(glob.glob(os.path.join(core.REPO, 'src/Vector/BLF/tests/unittests/events_from_*/*.blf')))
+    try:
+        r = subprocess.run([exe] + files, stdout=subprocess.PIPE, stderr=subprocess.PIPE, text=True, timeout=300,
+                           env=dict(os.environ, ASAN_OPTIONS='detect_leaks=0'))
+    except subprocess.TimeoutExpired:
+        rep.inconclusive.append('native reader-counter probe timed out'); return
+    bad = [l for l in r.stdout.splitlines() if '.blf:' in l]
+    rep.notes['native_reference_logs'] = dict(files=len(files), disagreements=len(bad),
+                                              what='real library (working tree, ASan+UBSan) reads each reference log to the end; currentObjectCount / currentUncompressedFileSize compared with the header fields')
+    for l in bad[:5]:
+        path = rep.write_replay('C05_reference_log_%s' % hashlib.md5(l.encode()).hexdigest()[:8], dict(property='C05', obligation='C05/native/reference-log-counters-agree-with-the-header', observation=l))
+        rep.violations.append(('C05/native/reference-log-counters-agree-with-the-header: ' + l, path, False))
+
+
+def main():
+    meta = core.ensure_extracted()
+    rc_holder = {}
+    def hook(rep): native_counters(rep)
+    return file_common.run_property('C05', post_hook=hook)
+
+
 if __name__ == '__main__':
-    core.main_wrapper(lambda: file_common.run_property('C05'))
+    core.main_wrapper(main)
